@@ -63,7 +63,7 @@ def handler_blocks(f, trynode):
 
 
 def enumerate_paths(f, stop=None, may_throw=None, max_visits=2, limit=200000, invalidate_on_call=None,
-                    start_block=None, assume=None, follow_const=True, decide=None):
+                    start_block=None, assume=None, follow_const=True, decide=None, end_blocks=None, init_val=None):
     """Enumerate entry->end paths of f's CFG.
     stop(f,node) -> True if executing this element ends the path ('stop': e.g. a call that never returns).
     may_throw(f,node) -> True if the element may raise a C++ exception (forks to the handlers of the
@@ -78,6 +78,10 @@ def enumerate_paths(f, stop=None, may_throw=None, max_visits=2, limit=200000, in
         while True:
             if count[0] > limit:
                 raise AnalysisBroken("path explosion in %s" % f.qn)
+            if end_blocks and b in end_blocks and blocks:
+                count[0] += 1
+                paths.append(Path(decisions, list(trace), "endblock", None, blocks + [b]))
+                return
             visits = dict(visits)
             visits[b] = visits.get(b, 0) + 1
             if visits[b] > max_visits:
@@ -217,7 +221,7 @@ def enumerate_paths(f, stop=None, may_throw=None, max_visits=2, limit=200000, in
     old = sys.getrecursionlimit()
     sys.setrecursionlimit(max(old, 10000))
     try:
-        run(start, {}, [], [], {}, [])
+        run(start, dict(init_val or {}), [], [], {}, [])
     finally:
         sys.setrecursionlimit(old)
     return paths
